@@ -25,11 +25,12 @@ def zlist(bs):
 
 # ---------------------------------------------------------------------------------------------- truncate
 class _Bytesify(ast.NodeTransformer):
-    """`truncate` works on text; the model works on the UTF-8 encoding of that text (a str is empty iff its
-    encoding is, `six.ensure_binary(s)` is the encoding itself).  Rewrites
-        X.decode("utf-8", "ignore")  ->  utf8_decode_ignore(X)      (Verif.lib.Utf8)
-        "<text literal>"             ->  its UTF-8 bytes
-    and refuses any other use of str methods."""
+    """`truncate` receives text; the model works on the UTF-8 encoding of that text (lib/Failure.v `encode_text`, with the
+    error handler named by `text_encode_errors`).  Rewrites
+        X.decode("utf-8", "ignore")[.encode("utf-8")]  ->  utf8_decode_ignore(X)      (Verif.lib.Utf8; the model keeps
+                                                            decoded text in encoded form, so re-encoding is the identity)
+        "<text literal>"                               ->  its UTF-8 bytes
+    and refuses any other method call."""
 
     def visit_Call(self, node):
         self.generic_visit(node)
@@ -41,6 +42,12 @@ class _Bytesify(ast.NodeTransformer):
                  and args[1] == "ignore", "truncate: decode() is no longer .decode('utf-8', 'ignore'): " + U(node))
             new = ast.Call(func=ast.Name(id="utf8_decode_ignore", ctx=ast.Load()), args=[f.value], keywords=[])
             return ast.copy_location(new, node)
+        if isinstance(f, ast.Attribute) and f.attr == "encode" and isinstance(f.value, ast.Call) \
+                and isinstance(f.value.func, ast.Name) and f.value.func.id == "utf8_decode_ignore":
+            args = [a.value.decode("utf-8") if isinstance(a, ast.Constant) and isinstance(a.value, bytes) else None for a in node.args]
+            need(not node.keywords and len(args) == 1 and str(args[0]).lower().replace("_", "-") in ("utf-8", "utf8"),
+                 "truncate: re-encoding is no longer .encode('utf-8'): " + U(node))
+            return f.value
         if isinstance(f, ast.Attribute) and not (isinstance(f.value, ast.Name) and f.value.id == "six"):
             raise P.Untranslatable("truncate: unexpected method call " + U(node))
         return node
@@ -52,6 +59,7 @@ class _Bytesify(ast.NodeTransformer):
 
 
 def gen_truncate(mod):
+    """-> (gallina text of truncate on encoded text, name of the error handler used when the text is encoded)"""
     f = copy.deepcopy(P.find_def(mod, "truncate"))
     need(isinstance(f, ast.FunctionDef) and [a.arg for a in f.args.args] == ["s", "limit"] and not f.args.defaults,
          "truncate(s, limit) changed its signature")
@@ -59,24 +67,42 @@ def gen_truncate(mod):
     # a leading docstring would be turned into bytes by the rewriter: drop it first
     if body and isinstance(body[0], ast.Expr) and isinstance(body[0].value, ast.Constant) and isinstance(body[0].value.value, str):
         body = body[1:]
-    # the parameter `s` is text; the model is its encoding.  Fail closed unless every use of `s` is one of:
-    # six.ensure_binary(s), a truth test (`if s and ...`), `return s` -- e.g. len(s) or s[:n] would count characters.
-    parents = {}
-    for n in ast.walk(ast.Module(body=body, type_ignores=[])):
-        for ch in ast.iter_child_nodes(n):
-            parents[ch] = n
-    rebound = False
-    for n in ast.walk(ast.Module(body=body, type_ignores=[])):
-        if isinstance(n, ast.Name) and n.id == "s" and isinstance(n.ctx, ast.Load):
-            par = parents.get(n)
-            ok = (isinstance(par, ast.Call) and U(par.func) == "six.ensure_binary" and par.args == [n]) \
-                or isinstance(par, (ast.BoolOp, ast.Return)) or (isinstance(par, ast.If) and par.test is n)
-            need(ok, "truncate uses the text `s` directly (characters, not UTF-8 bytes) in: " + U(par))
+    # `if isinstance(s, str): s = s.encode("utf-8", <errors>)` turns the text into its encoding: from there on `s` is bytes
+    errors = None
+    kept = []
+    for st in body:
+        if isinstance(st, ast.If) and U(st.test) == "isinstance(s, str)" and not st.orelse and len(st.body) == 1 and errors is None:
+            a = st.body[0]
+            need(isinstance(a, ast.Assign) and U(a.targets[0]) == "s" and isinstance(a.value, ast.Call) and U(a.value.func) == "s.encode"
+                 and not a.value.keywords and all(isinstance(x, ast.Constant) and isinstance(x.value, str) for x in a.value.args)
+                 and 1 <= len(a.value.args) <= 2 and a.value.args[0].value.lower().replace("_", "-") in ("utf-8", "utf8"),
+                 "truncate: the text is no longer encoded with s.encode('utf-8', errors): " + U(st))
+            errors = a.value.args[1].value if len(a.value.args) == 2 else "strict"
+            need(not any(isinstance(n, ast.Name) and n.id == "s" for k in kept for n in ast.walk(k)),
+                 "truncate uses `s` before encoding it")
+            continue
+        kept.append(st)
+    body = kept
+    if errors is None:
+        # no explicit encoding step: fail closed unless every use of the text `s` is six.ensure_binary(s), a truth test
+        # (`if s and ...`) or `return s` -- e.g. len(s) or s[:n] would count characters, not bytes.
+        errors = "strict"
+        parents = {}
+        for n in ast.walk(ast.Module(body=body, type_ignores=[])):
+            for ch in ast.iter_child_nodes(n):
+                parents[ch] = n
+        for n in ast.walk(ast.Module(body=body, type_ignores=[])):
+            if isinstance(n, ast.Name) and n.id == "s" and isinstance(n.ctx, ast.Load):
+                par = parents.get(n)
+                ok = (isinstance(par, ast.Call) and U(par.func) == "six.ensure_binary" and par.args == [n]) \
+                    or isinstance(par, (ast.BoolOp, ast.Return)) or (isinstance(par, ast.If) and par.test is n)
+                need(ok, "truncate uses the text `s` directly (characters, not UTF-8 bytes) in: " + U(par))
+    need(errors in ("strict", "backslashreplace"), "truncate encodes with an error handler the model does not know: %r" % errors)
     f.body = [_Bytesify().visit(st) for st in body]
     ast.fix_missing_locations(f)
     spec = dict(params=dict(s=P.L, limit=P.Z), ret=P.L,
                 calls={"utf8_decode_ignore": ("utf8_decode_ignore", [P.L], P.L, False)})
-    return P.Fn("truncate", f, spec).emit()
+    return P.Fn("truncate", f, spec).emit(), errors
 
 
 # ---------------------------------------------------------------------------------------------- limits
@@ -153,8 +179,7 @@ def callsite_limits(gs):
 def state_flow(gs):
     """the statements of getStateToCopy that the model copies by hand, checked textually (fail closed)"""
     src = U(gs)
-    for frag in ("state['value'] = str(obj.value)",
-                 "state['type'] = reflect.qual(obj.type)",
+    for frag in ("state['type'] = reflect.qual(obj.type)",
                  "if broker.unsafeTracebacks:",
                  "stack = obj.getTraceback()",
                  "state['traceback'] = stack",
@@ -223,7 +248,11 @@ def cmp_fact(fn, test_prefix, left, right, what):
 def gen_failure():
     mod = P.load("call.py")
     out = [P.PRELUDE % dict(src="call.py, constraint.py") + "Require Import Verif.lib.Utf8.\n"]
-    out.append(gen_truncate(mod))
+    ttext, errors = gen_truncate(mod)
+    out.append(ttext)
+    out.append("Inductive encode_errors := Strict | BackslashReplace.")
+    out.append("Definition text_encode_errors : encode_errors := %s.   (* how truncate turns text into bytes *)"
+               % {"strict": "Strict", "backslashreplace": "BackslashReplace"}[errors])
     lim, plen = constraint_limits(mod)
     for k in ("type", "value", "traceback", "parents"):
         out.append("Definition fc_limit_%s : Z := %d.   (* FailureConstraint: ByteStringConstraint(%d) *)" % (k, lim[k], lim[k]))
@@ -233,6 +262,13 @@ def gen_failure():
     for k in ("type", "value", "traceback", "parents"):
         out.append("Definition trunc_limit_%s : Z := %d.   (* truncate(state[%r], %d) in getStateToCopy *)" % (k, cs[k], k, cs[k]))
     default_tb, thr, h, t, mark = state_flow(gs)
+    # how the exception instance becomes text: str() may raise (a class can define __str__ freely), reflect.safe_str never does
+    rend = [U(n.value) for n in ast.walk(gs) if isinstance(n, ast.Assign) and U(n.targets[0]) == "state['value']"
+            and "obj.value" in U(n.value)]
+    need(len(rend) == 2 and rend[0] == rend[1] and rend[0] in ("str(obj.value)", "reflect.safe_str(obj.value)"),
+         "getStateToCopy renders the exception value with %s" % rend)
+    out.append("Definition value_rendering_is_safe : bool := %s.   (* state['value'] = %s *)"
+               % ("true" if rend[0].startswith("reflect.safe_str") else "false", rend[0]))
     out.append("Definition default_traceback : list Z := %s.   (* %r, as code points *)" % (zlist([ord(c) for c in default_tb]), default_tb))
     out.append("Definition elide_threshold : Z := %d." % thr)
     out.append("Definition elide_head : Z := %d." % h)
